@@ -68,9 +68,34 @@ VP == [h |-> Ev.h, r |-> Ev.r, s |-> Ev.s, res |-> Ev.res, f |-> Ev.f]
 IsBlk(b) == b[1] # -1        \* a block some honest node computed
 PRec(p) == p                 \* proposals are tuples <<h, r, v>> in ISAAC.tla
 
+(* ---- expels and suffrage confirm (scenario x; ISAACExpel.tla is the model) ----                          *)
+(* A suffrage-confirm ballot / voteproof has the stage "SC" here (its own vote record in the ballot box), a  *)
+(* fact that names expels is <<.., .., <<expelled members>>>>, events carry the expels of the voteproof (ex)  *)
+(* and the size of the suffrage of the height (nsuf: later heights run with the reduced suffrage).            *)
+SC == "SC"
+NSuf == IF Has("nsuf") THEN Ev.nsuf ELSE N
+ExOf == IF Has("ex") THEN {Ev.ex[k] : k \in 1..Len(Ev.ex)} ELSE {}
+MajAtN(V, need) == {f \in FactsOf(V) : CountOf(V, f) >= need}
+DrawAtN(V, q, need) == /\ V # {} /\ MajAtN(V, need) = {}
+                       /\ \A f \in FactsOf(V) : CountOf(V, f) + (q - Cardinality(V)) < need
+                       /\ q - Cardinality(V) < need
+(* Ballotbox.countFromVoted as the code does it: countWithExpels (t over the full suffrage, 100 % over n-k when *)
+(* k > n - Req67(n)) for an expel voteproof, the plain tally otherwise                                          *)
+BoxTallyOK(V, vp) ==
+  LET n == NSuf  X == ExOf  k == Cardinality(X)
+      W == {m \in V : m.n \notin X}
+      sw == k > n - Req(n, 670)
+      q == IF k > 0 /\ sw THEN n - k ELSE n
+      need == IF k > 0 /\ sw THEN n - k ELSE Req(n, T10)
+  IN IF vp.res = "MAJORITY" THEN vp.f \in MajAtN(W, need) ELSE vp.res = "DRAW" /\ DrawAtN(W, q, need)
+
 (* guards of a ballot of an honest node becoming visible (SendINIT / the ACCEPT branch of React) *)
 SendGuards(i, m) ==
-  IF m.s = INIT
+  IF m.s = SC
+  THEN \* prepareSuffrageConfirmBallot: only after an INIT expel voteproof with exactly this fact
+       Expect("SC-after-expel-vp", \E vp \in seen[i] : vp.s = INIT /\ vp.res = "MAJORITY" /\ vp.h = m.h /\ vp.r = m.r
+                                                         /\ vp.f = m.f /\ Len(vp.f) = 3)
+  ELSE IF m.s = INIT
   THEN /\ Expect("INIT-prev", m.h - 1 <= Len(chain[i]) /\ m.h >= 1 /\ m.f[1] = BlockAt(i, m.h - 1))
        /\ Expect("INIT-prop", PRec(m.f[2]) \in (props \cup fprops) /\ m.f[2][1] = m.h /\ m.f[2][2] = m.r)
   ELSE /\ Expect("ACCEPT-processed",
@@ -124,15 +149,14 @@ TBoxVP ==
   /\ Consume /\ Ev.a = "BoxVP"
   /\ LET vp == VP  i == Ev.n  V == Votes(Ev.n, Ev.h, Ev.r, Ev.s) IN
      /\ IF Ev.src = "count"
-        THEN /\ Expect("Count-tally", IF vp.res = "MAJORITY" THEN vp.f \in MajFacts(V)
-                                      ELSE vp.res = "DRAW" /\ IsDraw(V))
+        THEN /\ Expect("Count-tally", BoxTallyOK(V, vp))
              /\ vps' = vps \cup {vp}
         ELSE /\ Expect("Learn-known", vp \in vps)
              /\ vps' = vps \cup {vp}
      /\ seen' = [seen EXCEPT ![i] = @ \cup {vp}]
      \* the box emits only voteproofs that are new for ITS last point, which they then become (Emit / Receive);
      \* soft class: other callers of SetLastPoint (block saved, syncer) are not logged
-     /\ Expect("Box-new", NewVPAt(blast[i], vp))
+     /\ Expect("Box-new", Has("xp") \/ NewVPAt(blast[i], vp))
      /\ blast' = [blast EXCEPT ![i] = IF NewVPAt(@, vp) THEN PointOf(vp) ELSE @]
   /\ SetLast(Ev.n)
   /\ UNCHANGED <<msgs, props, box, chain, proc, mode, done, fprops, pby>>
@@ -142,9 +166,23 @@ TBoxVP ==
 TVoteproof ==
   /\ Consume /\ Ev.a = "Voteproof"
   /\ Expect("Handled-seen", VP \in seen[Ev.n])
+  \* Handle: the handler takes a voteproof only when it is new for its own last voteproofs. The position is the
+  \* sample taken with the previous event of this node; Saved / Processed are logged from inside the handler,
+  \* after it moved its last voteproofs, so "already at this voteproof's point" is the other legal case
+  /\ Expect("Handle-new", Ev.n \notin Honest \/ Has("xp") \/ NewVPAt(last[Ev.n], VP) \/ PointOf(VP) = last[Ev.n])
   /\ SetLast(Ev.n)
   /\ UNCHANGED <<msgs, props, box, chain, proc, mode, vps, seen, done, fprops, pby>>
   /\ UNCHANGED <<blast, vpq>>
+
+(* the ballot stuck resolver made a stuck voteproof (Ballotbox.StuckVoteproof with the expels SuffrageVoting    *)
+(* found): it reaches the handler without passing the box's voteproof channel                                   *)
+TStuckVP ==
+  /\ Consume /\ Ev.a = "StuckVP"
+  /\ Expect("Stuck-draw", Ev.res = "DRAW" /\ Has("ex") /\ Len(Ev.ex) >= 1)
+  /\ vps' = vps \cup {VP}
+  /\ seen' = [seen EXCEPT ![Ev.n] = @ \cup {VP}]
+  /\ SetLast(Ev.n)
+  /\ UNCHANGED <<msgs, props, box, chain, proc, mode, done, fprops, pby, blast, vpq>>
 
 (* DefaultProposalProcessor.Process reached BlockWriter.Manifest: INIT majority branch of React, *)
 (* first half (the ACCEPT broadcast is a separate visible step: TBcast / TVote)                  *)
@@ -153,8 +191,11 @@ TProcessed ==
   /\ LET i == Ev.n  d == [h |-> Ev.h, r |-> Ev.r, prop |-> Ev.prop, blk |-> Ev.blk] IN
      /\ Expect("Processed-prev", Ev.h - 1 <= Len(chain[i]) /\ Ev.prev = BlockAt(i, Ev.h - 1))
      /\ Expect("Blk-function", Has("div") \/ Ev.blk = Blk(PRec(Ev.prop), Ev.prev))   \* div: injected fault
-     /\ Expect("Processed-agreed", \E vp \in seen[i] : vp.s = INIT /\ vp.res = "MAJORITY" /\ vp.h = Ev.h
-                                                        /\ vp.r = Ev.r /\ vp.f = <<Ev.prev, Ev.prop>>)
+     \* checkSuffrageVoting: a majority whose fact names expels is processed only after its suffrage confirm
+     /\ Expect("Processed-agreed", \E vp \in seen[i] : /\ vp.res = "MAJORITY" /\ vp.h = Ev.h /\ vp.r = Ev.r
+                                                        /\ vp.s \in {INIT, SC} /\ Len(vp.f) >= 2
+                                                        /\ vp.f[1] = Ev.prev /\ vp.f[2] = Ev.prop
+                                                        /\ (Len(vp.f) = 3) = (vp.s = SC))
      /\ proc' = [proc EXCEPT ![i] = d]
      /\ done' = [done EXCEPT ![i] = @ \cup {d}]
   /\ SetLast(Ev.n)
@@ -201,7 +242,7 @@ TSwitched ==
 
 TraceInit == /\ Init /\ l = 1 /\ fprops = {} /\ pby = {}
              /\ seen = [i \in Node |-> {}] /\ done = [i \in Node |-> {}]
-TraceNext == TReset \/ TProp \/ TBcast \/ TVote \/ TBoxVP \/ TVoteproof \/ TProcessed \/ TSaved \/ TSynced \/ TSwitched
+TraceNext == TStuckVP \/ TReset \/ TProp \/ TBcast \/ TVote \/ TBoxVP \/ TVoteproof \/ TProcessed \/ TSaved \/ TSynced \/ TSwitched
 TraceSpec == TraceInit /\ [][TraceNext]_tvars
 
 -----------------------------------------------------------------------------
